@@ -985,11 +985,17 @@ func addCase(run *vlib.Run, st *stats, c caseT, labels ...string) {
 		if err != nil {
 			panic(err)
 		}
-		if why != "" {
+		if why == "not-storable" || why == "write-read-error" {
 			// the file cannot carry the description: lay the in-memory font out instead
 			c.Mode = "mem"
 			st.fileFallback++
 			labels = append(labels, "file-fallback:"+why)
+		} else if why != "" {
+			// the font read back differs from the description although the file
+			// can carry it: the case stays a file case, the layout of the font
+			// read back is compared with the model's layout of the description
+			st.fileCases++
+			labels = append(labels, "file-unfaithful:"+why)
 		} else {
 			st.fileCases++
 		}
